@@ -5,6 +5,7 @@ pub mod c05;
 pub mod c06;
 pub mod c07;
 pub mod c08;
+pub mod c09;
 pub mod c13;
 pub mod c14;
 pub mod c15;
@@ -23,6 +24,7 @@ pub fn run(id: &str, tier: Tier, hash_out: Option<String>) -> i32 {
         "C06" => c06::run(tier),
         "C07" => c07::run(tier),
         "C08" => c08::run(tier),
+        "C09" => c09::run(tier),
         "C13" => c13::run(tier),
         "C14" => c14::run(tier),
         "C15" => c15::run(tier),
@@ -43,6 +45,7 @@ pub fn replay_families(id: &str, tier: Tier) -> Option<Vec<Family<'static>>> {
         "C06" => Some(c06::replay_families(tier)),
         "C07" => Some(c07::replay_families(tier)),
         "C08" => Some(c08::replay_families(tier)),
+        "C09" => Some(c09::replay_families(tier)),
         "C13" => Some(c13::replay_families(tier)),
         "C14" => Some(c14::replay_families(tier)),
         "C15" => Some(c15::replay_families(tier)),
